@@ -49,7 +49,9 @@ func c18tMux(fail bool, withStats bool) *larking.Mux {
 			}
 			return dynamicpb.NewMessage(out), nil
 		},
-		Stream: func(string, protoreflect.MessageDescriptor, protoreflect.MessageDescriptor, grpc.ServerStream) error { return nil },
+		Stream: func(string, protoreflect.MessageDescriptor, protoreflect.MessageDescriptor, grpc.ServerStream) error {
+			return nil
+		},
 	}
 	var opts []larking.MuxOption
 	if withStats {
